@@ -43,6 +43,7 @@ type PStream struct {
 	AfterEnd   int // frames that arrived after END_STREAM/RST for this stream
 	// send side (peer as sender)
 	SendWin int64 // remaining stream credit as known to the peer
+	WaitingCredit bool // a conforming sender is blocked on this stream for lack of credit
 	Sent    int64
 	Opened  bool
 	// receive side (peer as receiver): bytes received and not yet granted back
@@ -720,9 +721,11 @@ func (p *Peer) SendData(id uint32, payload []byte, endStream bool, maxFrame int,
 		}
 		if n <= 0 {
 			p.w.e.Probe("peer_waited_for_credit")
+			st.WaitingCredit = true
 			ok := p.WaitFor(-1, func() bool {
 				return (st.SendWin > 0 && p.ConnWin > 0) || p.Closed || p.dead || (abort != nil && abort())
 			})
+			st.WaitingCredit = false
 			if !ok || p.Closed || p.dead {
 				return false
 			}
